@@ -989,7 +989,7 @@ var summaryStrings = map[string]Summary{
 	// func Join(elems []string, sep string) string {
 	"strings.Join": {
 		[][]int{{0}, {1}},
-		[][]int{{0}, {1}},
+		[][]int{{0}, {0}},
 	},
 	// func LastIndex(s string, substr string) int
 	"strings.LastIndex": {
